@@ -17,6 +17,20 @@ props = [json.loads(l) for l in open(os.path.join(VERIF, "properties.jsonl")) if
 words = {2: "two", 4: "four", 6: "six", 8: "eight", 10: "ten", 12: "twelve", 14: "fourteen"}
 
 STEER = {
+    8: ("Read the code the property is anchored in AND the code it relies on elsewhere in the repository and in its dependencies, and look for places the list above has not touched. "
+        "This round, work from the PROPERTY TEXT: split the statement into its clauses (every 'and', every 'only if', every 'never', every item of the quantification) and pick the "
+        "clauses the earlier changes touched least - a clause that reads like an afterthought is a good candidate. Then prefer changes of these kinds: (a) legal but rare forms at the "
+        "boundary between two layers: PEM with CRLF line ends, headers, blank lines or text between blocks; JSON with escapes (\\u0041), a byte-order mark, insignificant white space, "
+        "exponent or leading-zero number spellings, deep nesting; percent-encoding variants and repeated / differently cased HTTP header fields; DER alternatives the standard library "
+        "accepts; protobuf text and binary forms with unknown fields, default values, repeated scalar occurrences (last one wins), packed versus unpacked lists; (b) counts and sizes one "
+        "past a power of two that a narrower type would hold (255 / 256 entries, 65535 / 65536 bytes), empty collections, exactly-full buffers; (c) the environment of the process as an "
+        "input: command-line flags given twice or in another order, flag values with surrounding white space, relative paths and the working directory, file modes, symbolic links, "
+        "environment variables the standard library reads (proxy settings, TZ, GODEBUG, SSL_CERT_FILE), standard input versus file input; (d) asymmetries between sibling code paths "
+        "that should agree: raw bytes versus message entry point, platform versus processor CA, TCB Info versus QE Identity handling, flag versus config file, binary versus text "
+        "config, GetQuote versus GetRawQuote, the collateral level versus the revocation level - change one sibling only; (e) a default that changes: a zero value that used to mean "
+        "'unset' now means something, or the other way round. A generated-input harness that already covers single-field mutations, boundary values, permutations, concurrency of "
+        "independent calls, 32-bit builds, time-shifted worlds, call histories on one Options value, long histories over hundreds of distinct inputs in one process, byte-level "
+        "differential testing of the parsers against reference readers, and transient failures of devices, getters and the TSM should still be likely to miss the change."),
     7: ("Read the code the property is anchored in AND the code it relies on elsewhere in the repository and in its dependencies (encoding/asn1, encoding/json, crypto/x509, "
         "encoding/pem, net/http and net/url, google.golang.org/protobuf and the generated getters, go-configfs-tsm, go-eventlog, the logger) and look for places the list above has "
         "not touched. This round, prefer changes of these kinds: (a) the library leans on a guarantee of a dependency that the change quietly gives up (strictness of a decoder, "
